@@ -14,7 +14,7 @@ From Coercion.Base Require Import Plan.
 From Coercion.Engine Require Import Shape Event Action ChecksRun Seq Block Final PlanSM Auto Accept AutoLemmas.
 From Coercion.Resume Require Import Resume ResumeLemmas ReleaseProofs Frame NoReexec.
 From Coercion.Chain Require Import FixMem.
-From Coercion.C10x Require Import Cells.
+From Coercion.C10x Require Import Cells GroupInv.
 
 (* a resumed sequence before execSeq takes it: fo = its first open action *)
 Definition res_shape (m : obj -> cell) (b q n fo : nat) : Prop :=
@@ -187,7 +187,8 @@ Record mem_sound : Prop := {
              res_shape (FixMem.m0 sh I) b q (length rs) (first_open pl b q);
   ms_rs2 : forall fl b q, is_terminal (pln_st sh I fl) = false -> seq_of sh b q <> None ->
              is_terminal (blk_st sh I fl b) = false -> ~ In (b, q) (resumed sh I) ->
-             seq_st0 sh I b q = NotStarted \/ cf (seq_st0 sh I b q) }.
+             seq_st0 sh I b q = NotStarted \/ cf (seq_st0 sh I b q);
+  ms_todo : NoDup (map fst (group_by_block (resumed sh I))) }.
 
 (* a sequence fixBlock still has to resume *)
 Definition waiting (r : rst) (b q : nat) : Prop :=
@@ -216,7 +217,8 @@ Record M (r : rst) : Prop := {
              res_shape (mget r) b q (length rs) (first_open (r_pl r) b q);
   m_next : r_ph r = RRun -> ~ ended r -> forall b q, upcoming r b -> seq_of sh b q <> None ->
              is_terminal (mst (mget r) (OBlock b)) = false ->
-             sstat (mget r) b q = NotStarted \/ cf (sstat (mget r) b q) }.
+             sstat (mget r) b q = NotStarted \/ cf (sstat (mget r) b q);
+  m_todo : forall todo, r_ph r = RRecover todo -> NoDup (map fst todo) }.
 
 (* ---- a move that writes no sequence-level object of memory and leaves the sequences of the state alone ---- *)
 Lemma M_view r r' :
@@ -226,7 +228,7 @@ Lemma M_view r r' :
   r_ph r' = r_ph r -> r_pl r' = r_pl r -> s_ph (r_s r') = s_ph (r_s r) -> s_cb (r_s r') = s_cb (r_s r) ->
   seqs_of (r_s r') = seqs_of (r_s r) -> M r -> M r'.
 Proof.
-  intros Hsame Hact Hblk Hph Hpl Hsp Hcb Hsq [Ma Ms Mc Mw Mn].
+  intros Hsame Hact Hblk Hph Hpl Hsp Hcb Hsq [Ma Ms Mc Mw Mn Mt].
   assert (Hin : forall b, in_blocks sh r' b -> in_blocks sh r b).
   { intros b [[H1 H2] H3]. split; [split; congruence|exact H3]. }
   constructor.
@@ -242,6 +244,7 @@ Proof.
     assert (Hne' : ~ ended r) by (unfold ended in *; rewrite Hsp in Hne; exact Hne).
     destruct (seq_of sh b q) as [rs|] eqn:Eq; [|contradiction].
     destruct (Hsame b q rs Eq) as [E _]. unfold sstat. rewrite E. apply Mn; auto. rewrite Eq. discriminate.
+  - intros todo Ht. apply Mt. congruence.
 Qed.
 
 (* the engine state moves inside the part the invariant does not read; memory untouched *)
@@ -249,5 +252,176 @@ Lemma M_keep r s' : M r -> keeps_seqs (r_s r) s' -> M (with_s r s').
 Proof.
   intros HM ((H1 & H2 & _) & H5). eapply M_view; [| | | | | | | |exact HM]; simpl; auto.
   intros b q rs _. apply msame_refl.
+Qed.
+
+(* ---- a move of ONE sequence sub-automaton of the current block (q: x -> y, y not idle), with whatever it writes into
+        the cells of that sequence ---- *)
+Lemma waiting_block r b q : waiting r b q -> M r -> in_blocks sh r (s_cb (r_s r)) ->
+  (exists b0 qs0 rest, r_ph r = RRecover ((b0, qs0) :: rest) /\ s_cb (r_s r) = b0) ->
+  (b = s_cb (r_s r) /\ nth_error (seqs_of (r_s r)) q = Some SIdle) \/ b <> s_cb (r_s r).
+Proof.
+  intros Hw HM _ (b0 & qs0 & rest & Hph & Hcb). unfold waiting in Hw. rewrite Hph in Hw.
+  destruct Hw as [(-> & _ & Hx)|(qs' & Hin & _)]; [left; split; [now symmetry|exact Hx]|right].
+  pose proof (m_todo r HM _ Hph) as Hnd. cbn [map fst] in Hnd. inversion Hnd as [|? ? Hni _]; subst.
+  intro E. apply Hni. rewrite <- E. change b with (fst (b, qs')). now apply in_map.
+Qed.
+
+Lemma M_update r r' b q rs x y :
+  Inv sh I r -> M r -> in_blocks sh r b -> seq_of sh b q = Some rs ->
+  (forall b' q' rs', seq_of sh b' q' = Some rs' -> (b', q') <> (b, q) -> msame (mget r) (mget r') b' q' (length rs')) ->
+  (forall a, obj_in_shape sh (OAct a) = true -> act_ok (mget r' (OAct a))) ->
+  scons (mget r') b q (length rs) ->
+  (forall b', mst (mget r') (OBlock b') = mst (mget r) (OBlock b')) ->
+  r_ph r' = r_ph r -> r_pl r' = r_pl r -> same_ctl (r_s r) (r_s r') ->
+  nth_error (seqs_of (r_s r)) q = Some x -> seqs_of (r_s r') = upd (seqs_of (r_s r)) q y -> y <> SIdle ->
+  cur_ok r' b q (length rs) y ->
+  M r'.
+Proof.
+  intros Hi HM Hin Hq Hsame Hact Hsc Hblk Hph Hpl (Hsp & Hcb & _) Hx Hsq Hy Hcur.
+  pose proof HM as [Ma Ms Mc Mw Mn Mt].
+  assert (Hb : b = s_cb (r_s r)) by (destruct Hin as [[_ E] _]; now symmetry).
+  assert (Hin' : forall b0, in_blocks sh r' b0 -> in_blocks sh r b0).
+  { intros b0 [[H1 H2] H3]. split; [split; congruence|exact H3]. }
+  assert (Hnth : forall q', nth_error (seqs_of (r_s r')) q' = if Nat.eqb q q' then Some y else nth_error (seqs_of (r_s r)) q').
+  { intro q'. rewrite Hsq. eapply nth_upd. exact Hx. }
+  constructor.
+  - exact Hact.
+  - intros b' q' rs' Hq'. destruct (pair_dec (b', q') (b, q)) as [E|Hne].
+    + injection E as -> ->. rewrite Hq in Hq'. injection Hq' as <-. exact Hsc.
+    + eapply msame_scons; [apply Hsame; eauto|eauto].
+  - intros b0 q' rs' x' Hi0 Hq' Hx'. pose proof (Hin' _ Hi0) as Hi1.
+    assert (b0 = b) by (destruct Hi1 as [[_ E] _]; congruence). subst b0.
+    rewrite Hnth in Hx'. destruct (Nat.eqb q q') eqn:Eq.
+    + apply Nat.eqb_eq in Eq. subst q'. injection Hx' as <-. rewrite Hq in Hq'. injection Hq' as <-. exact Hcur.
+    + apply Nat.eqb_neq in Eq. unfold cur_ok. rewrite Hph. eapply msame_cur; [apply Hsame; [exact Hq'|]|].
+      * intro E. injection E as E. apply Eq. now symmetry.
+      * exact (Mc b q' rs' x' Hi1 Hq' Hx').
+  - intros b0 q0 rs0 Hq0 Hw. rewrite Hpl.
+    assert (Hw0 : waiting r b0 q0 /\ (b0, q0) <> (b, q)).
+    { unfold waiting in *. rewrite Hph in Hw. destruct (r_ph r) as [|[|[bb qs0] rest]|] eqn:Ep; try contradiction.
+      destruct Hw as [(-> & Hq1 & Hx1)|Hr].
+      - rewrite Hnth in Hx1. destruct (Nat.eqb q q0) eqn:Eq; [injection Hx1 as ->; contradiction|].
+        apply Nat.eqb_neq in Eq. split; [left; auto|]. intro E. injection E as _ E. apply Eq. now symmetry.
+      - split; [right; exact Hr|]. destruct Hr as (qs' & Hin0 & _).
+        pose proof (Mt _ eq_refl) as Hnd. cbn [map fst] in Hnd. inversion Hnd as [|? ? Hni _]; subst.
+        destruct (i_rec _ _ _ Hi _ Ep) as ((b1 & qs1 & rest1 & E1 & Ha & _) & _). injection E1 as <- <- <-.
+        intro E. injection E as -> ->. apply Hni. destruct Ha as [_ Ha]. rewrite <- Ha.
+        change (s_cb (r_s r)) with (fst (s_cb (r_s r), qs')). now apply in_map. }
+    destruct Hw0 as [Hw0 Hne]. eapply msame_res; [apply Hsame; eauto|]. now apply Mw.
+  - intros Hrun Hne b0 q0 Hup Hq0 Ht. rewrite Hph in Hrun.
+    assert (Hup' : upcoming r b0) by (unfold upcoming in *; rewrite Hsp, Hcb in Hup; exact Hup).
+    assert (Hne' : ~ ended r) by (unfold ended in *; rewrite Hsp in Hne; exact Hne).
+    rewrite Hblk in Ht. destruct (seq_of sh b0 q0) as [rs0|] eqn:Eq0; [|contradiction].
+    assert (Hd : (b0, q0) <> (b, q)).
+    { intro E. injection E as -> ->. unfold upcoming in Hup'. destruct Hin as [[Hp Hc] _]. rewrite Hp, Hc in Hup'. lia. }
+    destruct (Hsame b0 q0 rs0 Eq0 Hd) as [E _]. unfold sstat. rewrite E. apply Mn; auto. rewrite Eq0. discriminate.
+  - intros todo Ht. apply Mt. congruence.
+Qed.
+
+(* ------------------------------------------------------------------ a write one of the engine's handlers takes *)
+Lemma sconsf_running cf n : sconsf cf Running n.
+Proof. exact Logic.I. Qed.
+
+Lemma M_hwrite r o stt n ok rs s' :
+  Inv sh I r -> M r -> GR r -> h_write sh (r_s r) o stt n ok rs = Some s' ->
+  M (with_mem (with_s r s') (iset (r_mem r) o (wcell stt n ok))).
+Proof.
+  intros Hi HM Hg Hw. destruct (h_write_spec _ _ _ _ _ _ _ _ Hw) as (Hsh & _ & He).
+  set (r' := with_mem (with_s r s') (iset (r_mem r) o (wcell stt n ok))).
+  assert (Hmg : forall o', mget r' o' = mupd (mget r) o (wcell stt n ok) o') by (intro; apply mget_write).
+  assert (Hview : keeps_seqs (r_s r) s' -> (forall b q, o <> OSeq b q) -> (forall b q i, o <> OAct (ASeq b q i)) ->
+                  (forall b', upcoming r b' -> o <> OBlock b') -> (forall a, o = OAct a -> act_ok (wcell stt n ok)) -> M r').
+  { intros ((H1 & H2 & _) & H5) Hn1 Hn2 Hn3 Hav.
+    apply (M_view r r'); [| | |reflexivity|reflexivity|exact H1|exact H2|exact H5|exact HM].
+    - intros b q rs0 _. split; [rewrite Hmg; apply mupd_other; apply Hn1|intros i _; rewrite Hmg; apply mupd_other; apply Hn2].
+    - intros a Ha Hok. rewrite Hmg. unfold mupd. destruct (obj_eqb o (OAct a)) eqn:E; [apply obj_eqb_eq in E; eapply Hav; eauto|exact Hok].
+    - intros b' Hup. unfold mst. rewrite Hmg. rewrite mupd_other; [reflexivity|now apply Hn3]. }
+  unfold write_effect in He. destruct o as [|[|b] g|b|b q|[[|b] g i|b q i]].
+  - apply Hview; [exact He|discriminate|discriminate|discriminate|intros a E; discriminate E].
+  - apply Hview; [exact He|discriminate|discriminate|discriminate|intros a E; discriminate E].
+  - apply Hview; [apply He|discriminate|discriminate|discriminate|intros a E; discriminate E].
+  - (* OBlock *)
+    destruct He as ((bs & Hc) & Hk & _). destruct (cur_in_blocks _ _ _ _ Hc) as [[[Hp Hcb] _] _].
+    apply Hview; [exact Hk|discriminate|discriminate| |intros a E; discriminate E].
+    intros b' Hup E. injection E as <-. unfold upcoming in Hup. rewrite Hp, Hcb in Hup. lia.
+  - (* OSeq *)
+    destruct He as ((bs & Hc) & He). destruct (cur_in_blocks _ _ _ _ Hc) as [Hin _].
+    assert (Hq : exists rs0, seq_of sh b q = Some rs0) by (cbn in Hsh; destruct (seq_of sh b q) as [rs0|]; [eauto|discriminate]).
+    destruct Hq as (rs0 & Hq).
+    assert (Hoth : forall b' q' rs', seq_of sh b' q' = Some rs' -> (b', q') <> (b, q) -> msame (mget r) (mget r') b' q' (length rs')).
+    { intros b' q' rs' _ Hne. split; [rewrite Hmg; apply mupd_other; intro E; injection E as <- <-; now apply Hne|].
+      intros i _. rewrite Hmg. apply mupd_other. discriminate. }
+    assert (Hacts : forall j, acell (mget r') b q j = acell (mget r) b q j).
+    { intro j. unfold acell. rewrite Hmg. apply mupd_other. discriminate. }
+    assert (Hst : sstat (mget r') b q = stt) by (unfold sstat; rewrite Hmg, mupd_same; reflexivity).
+    assert (Hact : forall a, obj_in_shape sh (OAct a) = true -> act_ok (mget r' (OAct a))).
+    { intros a Ha. rewrite Hmg, mupd_other by discriminate. now apply (m_act r HM). }
+    assert (Hblk : forall b', mst (mget r') (OBlock b') = mst (mget r) (OBlock b')).
+    { intro b'. unfold mst. rewrite Hmg, mupd_other by discriminate. reflexivity. }
+    destruct stt; try contradiction.
+    + (* the launch *)
+      destruct He as [Hbs Hm]. pose proof Hm as (Hctl & Hx & Hsq).
+      assert (Hrun : r_ph r = RRun).
+      { destruct (r_ph r) as [|todo|] eqn:Ep; [exfalso; exact (i_live _ _ _ Hi Ep)| |reflexivity].
+        destruct (i_rec _ _ _ Hi _ Ep) as ((b0 & qs & rest & _ & _ & Hbe & _) & _). congruence. }
+      pose proof (m_cur r HM b q rs0 SIdle Hin Hq Hx) as Hold. unfold cur_ok, cur_okm in Hold. specialize (Hold Hrun).
+      pose proof (m_seq r HM b q rs0 Hq) as Hsc. unfold scons in Hsc. rewrite Hold in Hsc.
+      apply (M_update r r' b q rs0 SIdle (SRun 0 AIdle)); auto; try reflexivity; try discriminate.
+      * unfold scons. rewrite Hst. apply sconsf_running.
+      * unfold cur_ok, cur_okm. split; [exact Hst|]. split; [intros j Hj; lia|]. split.
+        -- intros j _ Hn. rewrite Hacts. now apply Hsc.
+        -- split; [intros v k E; discriminate|lia].
+    + (* Completed *)
+      pose proof He as (Hctl & Hx & Hsq).
+      pose proof (m_cur r HM b q rs0 (SPend true) Hin Hq Hx) as [_ Hold].
+      apply (M_update r r' b q rs0 (SPend true) (SDone true)); auto; try reflexivity; try discriminate.
+      unfold scons. rewrite Hst. intros j Hj. rewrite Hacts. now apply Hold.
+    + (* Failed *)
+      pose proof He as (Hctl & Hx & Hsq).
+      pose proof (m_cur r HM b q rs0 (SPend false) Hin Hq Hx) as [_ Hold].
+      apply (M_update r r' b q rs0 (SPend false) (SDone false)); auto; try reflexivity; try discriminate.
+      unfold scons. rewrite Hst. apply (sconsf_ext (acell (mget r) b q)); [intros j _; apply Hacts|exact Hold].
+  - apply Hview; [exact He|discriminate|discriminate|discriminate|].
+    intros a E. injection E as <-. eapply chk_write_value; eauto.
+  - apply Hview; [apply He|discriminate|discriminate|discriminate|].
+    intros a E. injection E as <-. eapply chk_write_value; eauto.
+  - (* a sequence action *)
+    clear He. destruct (seq_act_write _ _ _ _ _ _ _ _ _ _ Hw) as (bs & rs0 & a & y & Hc & Hq & Hi0 & Hm & Hcase).
+    destruct (cur_in_blocks _ _ _ _ Hc) as [Hin _]. pose proof Hm as (Hctl & Hx & Hsq).
+    pose proof (m_cur r HM b q rs0 (SRun i a) Hin Hq Hx) as (Ost & Opre & Osuf & Oap & Ole).
+    assert (Hoth : forall b' q' rs', seq_of sh b' q' = Some rs' -> (b', q') <> (b, q) -> msame (mget r) (mget r') b' q' (length rs')).
+    { intros b' q' rs' _ Hne. split; [rewrite Hmg; apply mupd_other; discriminate|].
+      intros j _. rewrite Hmg. apply mupd_other. intro E. injection E as <- <- _. now apply Hne. }
+    assert (Hacts : forall j, j <> i -> acell (mget r') b q j = acell (mget r) b q j).
+    { intros j Hj. unfold acell. rewrite Hmg. apply mupd_other. intro E. injection E as E. now apply Hj. }
+    assert (Hnew : acell (mget r') b q i = wcell stt n ok) by (unfold acell; rewrite Hmg; apply mupd_same).
+    assert (Hst : sstat (mget r') b q = Running) by (unfold sstat; rewrite Hmg, mupd_other by discriminate; exact Ost).
+    assert (Hblk : forall b', mst (mget r') (OBlock b') = mst (mget r) (OBlock b')).
+    { intro b'. unfold mst. rewrite Hmg, mupd_other by discriminate. reflexivity. }
+    assert (Hval : act_ok (wcell stt n ok)).
+    { destruct Hcase as [[-> _]|[(k & -> & -> & -> & -> & _)|(k & -> & -> & -> & -> & _)]].
+      - left. reflexivity.
+      - right. right. left. repeat split; auto. exact (Oap _ _ eq_refl).
+      - right. right. right. repeat split; auto. exact (Oap _ _ eq_refl). }
+    assert (Hact : forall a0, obj_in_shape sh (OAct a0) = true -> act_ok (mget r' (OAct a0))).
+    { intros a0 Ha. rewrite Hmg. unfold mupd. destruct (obj_eqb (OAct (ASeq b q i)) (OAct a0)); [exact Hval|now apply (m_act r HM)]. }
+    assert (Hsc : scons (mget r') b q (length rs0)) by (unfold scons; rewrite Hst; apply sconsf_running).
+    assert (Hpre' : forall j, j < i -> done (acell (mget r') b q j)) by (intros j Hj; rewrite Hacts by lia; now apply Opre).
+    assert (Hsuf' : forall j, i < j -> j < length rs0 -> acell (mget r') b q j = cell0) by (intros j Hj Hn; rewrite Hacts by lia; now apply Osuf).
+    destruct Hcase as [[-> (a' & -> & Hap)]|[(k & -> & -> & -> & -> & Hy)|(k & -> & -> & -> & -> & ->)]].
+    + apply (M_update r r' b q rs0 (SRun i a) (SRun i a')); auto; try reflexivity; try discriminate.
+      unfold cur_ok, cur_okm. split; [exact Hst|]. split; [exact Hpre'|]. split; [exact Hsuf'|]. split; [exact Hap|lia].
+    + assert (Hd : done (acell (mget r') b q i)) by (rewrite Hnew; repeat split; auto; exact (Oap _ _ eq_refl)).
+      destruct Hy as [[-> Hlt]|[-> Hge]].
+      * apply (M_update r r' b q rs0 (SRun i (APend true k)) (SRun (S i) AIdle)); auto; try reflexivity; try discriminate.
+        unfold cur_ok, cur_okm. split; [exact Hst|]. split; [|split; [|split; [intros v k' E; discriminate|lia]]].
+        -- intros j Hj. destruct (Nat.eq_dec j i) as [-> |Hne]; [exact Hd|apply Hpre'; lia].
+        -- intros j Hj Hn. apply Hsuf'; lia.
+      * apply (M_update r r' b q rs0 (SRun i (APend true k)) (SPend true)); auto; try reflexivity; try discriminate.
+        unfold cur_ok, cur_okm. split; [exact Hst|]. intros j Hj.
+        destruct (Nat.eq_dec j i) as [-> |Hne]; [exact Hd|apply Hpre'; lia].
+    + assert (Hf : failedc (acell (mget r') b q i)) by (rewrite Hnew; repeat split; auto; exact (Oap _ _ eq_refl)).
+      apply (M_update r r' b q rs0 (SRun i (APend false k)) (SPend false)); auto; try reflexivity; try discriminate.
+      unfold cur_ok, cur_okm. split; [exact Hst|]. exists i. split; [exact Hi0|]. split; [exact Hpre'|]. split; [exact Hf|exact Hsuf'].
 Qed.
 End MemInv.
